@@ -38,13 +38,14 @@ Proof.
 Qed.
 
 (* ---- C11_roundtrip: the conversation and what it leaves behind ---- *)
+(* sent_entry c = the source under the name the receiver is told (".host" appended for a reverse copy) *)
 Theorem copy_roundtrip cfg c fs (l : list src) dp t dm dt de :
-  cc_suffix c = None -> cc_preserve c = c_preserve cfg ->
+  cc_preserve c = c_preserve cfg ->
   (forall pre k n, In (pre, k, n) l ->
      lookup (cc_fs c) (cc_cwd c ++ pre ++ [k]) = Some n /\ (pre <> [] \/ beq k sentinel = false)) ->
-  wf_src_list cfg (map src_entry l) -> names_distinct (map src_entry l) ->
-  fits_list (length (c_dest cfg)) (map src_entry l) ->
-  (forall k v, In (k, v) (map src_entry l) -> assoc k de = None) ->
+  wf_src_list cfg (map (sent_entry c) l) -> names_distinct (map (sent_entry c) l) ->
+  fits_list (length (c_dest cfg)) (map (sent_entry c) l) ->
+  (forall k v, In (k, v) (map (sent_entry c) l) -> assoc k de = None) ->
   resolve fs (c_cwd cfg) (c_dest cfg) = ROk dp t -> lookup fs dp = Some (Dir dm dt de) ->
   (c_preserve cfg = true -> c_dirmode cfg = true) ->
   exists stream w' copies dt',
@@ -53,25 +54,25 @@ Theorem copy_roundtrip cfg c fs (l : list src) dp t dm dt de :
     (* the stream is what the sender writes given the answers the receiver has given by then *)
     client c (top_files l) (seen_replies w') = stream /\
     (* every answer is an acknowledgement, all input is consumed *)
-    replies w' = repeat Ack (1 + n_acks_list (c_preserve cfg) (map src_entry l)) /\ w_in w' = [] /\
+    replies w' = repeat Ack (1 + n_acks_list (c_preserve cfg) (map (sent_entry c) l)) /\ w_in w' = [] /\
     (* the target directory holds its old entries and, after them, a faithful copy of every source *)
     lookup (w_fs w') dp = Some (Dir dm dt' (de ++ copies)) /\
-    faithful_list cfg (map src_entry l) copies /\
+    faithful_list cfg (map (sent_entry c) l) copies /\
     (* and nothing else changed *)
     set_at fs dp (Dir dm dt' (de ++ copies)) = Some (w_fs w').
 Proof.
-  intros Hns Hp Hsrc Hwf Hd Hfit Hfresh Hr Hl Hdm.
-  destruct (sink_encode cfg fs (map src_entry l) dp t dm dt de Hr Hl Hwf Hd Hfit Hfresh)
+  intros Hp Hsrc Hwf Hd Hfit Hfresh Hr Hl Hdm.
+  destruct (sink_encode cfg fs (map (sent_entry c) l) dp t dm dt de Hr Hl Hwf Hd Hfit Hfresh)
     as (w' & fs' & Es & Ef & Hset & Hrep & Hseen & Hin).
-  exists (encode_list (c_preserve cfg) (map src_entry l)), w', (copy_list cfg dm (map src_entry l)),
-         (match map src_entry l with [] => dt | _ => None end).
+  exists (encode_list (c_preserve cfg) (map (sent_entry c) l)), w', (copy_list cfg dm (map (sent_entry c) l)),
+         (match map (sent_entry c) l with [] => dt | _ => None end).
   split; [exact Es|]. split.
   - rewrite Hseen. rewrite <- Hp.
-    rewrite <- (app_nil_r (repeat Ack _)). apply client_all_acks; [exact Hns|].
+    rewrite <- (app_nil_r (repeat Ack _)). apply client_all_acks.
     intros pre k n Hin'. destruct (Hsrc pre k n Hin') as [A B]. repeat split; auto.
     apply (wf_src_names cfg).
-    assert (Hi : In (k, n) (map src_entry l)) by (change (k, n) with (src_entry (pre, k, n)); now apply in_map).
-    clear -Hwf Hi. induction (map src_entry l) as [|[k' v'] r IH]; [destruct Hi|].
+    assert (Hi : In (k ++ suffix_of c true, n) (map (sent_entry c) l)) by (change (k ++ suffix_of c true, n) with (sent_entry c (pre, k, n)); now apply in_map).
+    clear -Hwf Hi. induction (map (sent_entry c) l) as [|[k' v'] r IH]; [destruct Hi|].
     cbn [wf_src_list] in Hwf. destruct Hwf as (_ & Hv & Hr). destruct Hi as [E|Hi]; [inversion E; subst; exact Hv|auto].
   - split; [exact Hrep|]. split; [exact Hin|]. split; [rewrite Ef; apply (lookup_set_at _ _ _ _ Hset)|].
     split; [apply copy_list_faithful; exact Hdm|]. rewrite Ef. exact Hset.
